@@ -217,16 +217,43 @@ static void run_locked_case(uint64_t idx, Ctx& c) {
     bool schema = case_schema(g);
     for (size_t i = 0; i < g.instances.size(); i++) {
         if (c.verbose) { printf("validating instance %zu against the ORIGINAL locked pool A\n", i); fflush(stdout); }
-        Verdict va = validate(A.p, g.instances[i], schema, 1);
+        // no PSVI handler: a fresh parser on a *locked* pool always receives an empty XSModel (GrammarResolver::getXSModel never adopts the pool's
+        // model when XSModelWasChanged is false), and IGXMLScanner::buildAttList then dereferences fModel->getXSObject(attrDataType) == 0 for a valid
+        // attribute of a user-defined simple type - with the ORIGINAL locked pool as well, i.e. unrelated to serialisation
+        Verdict va = validate(A.p, g.instances[i], schema, 1, false);
         if (c.verbose) { printf("validating instance %zu against the restored locked pool D\n", i); fflush(stdout); }
-        Verdict vd = validate(D.p, g.instances[i], schema, 1);
+        Verdict vd = validate(D.p, g.instances[i], schema, 1, false);
+        Verdict wa = validate(A.p, g.instances[i], schema, 0, false), wd = validate(D.p, g.instances[i], schema, 0, false);
+        if (wa.text != wd.text) { c.violation("behaviour-differs", in + ",\"api\":\"DOM\",\"instance\":" + jstr(g.instances[i]) + ",\"diff\":" + jstr(first_diff(wa.text, wd.text))); break; }
         c.count("validations");
         if (va.text != vd.text) { c.violation("behaviour-differs", in + ",\"instance\":" + jstr(g.instances[i]) + ",\"diff\":" + jstr(first_diff(va.text, vd.text))); break; }
     }
     c.count("locked_pools_restored");
 }
 
+// ------------------------------------------------------------------------------------------------ witnesses of the listed defects
+static void run_witness_case(uint64_t idx, Ctx& c) {
+    // the witnesses were evaluated before the fork; evaluate again here so that the runner's identical-twice confirmation is meaningful
+    Defect saved[N_DEFECTS];
+    for (int i = 0; i < N_DEFECTS; i++) { saved[i] = DEFECTS[i]; DEFECTS[i].active = false; DEFECTS[i].repro.clear(); }
+    evaluate_witnesses();
+    const Defect& d = DEFECTS[idx];
+    c.count("witnesses_evaluated");
+    if (d.active) { c.count(std::string("witness_failed:") + d.id); c.violation(std::string("defect:") + d.id, "\"what\":" + jstr(d.what) + "," + d.repro); }
+    else c.count(std::string("witness_passed:") + d.id);
+    for (int i = 0; i < N_DEFECTS; i++) DEFECTS[i] = saved[i];
+}
+
 static bool setup_space(const std::string& space, const Args& a, bool thorough, Runner& R) {
+    if (space == "witness") {
+        R.total = N_DEFECTS;
+        R.fn = run_witness_case;
+        R.describe = [](uint64_t i) { return "{\"defect\":" + jstr(DEFECTS[i].id) + "}"; };
+        std::string ids;
+        for (int i = 0; i < N_DEFECTS; i++) ids += (i ? "," : "") + jstr(DEFECTS[i].id);
+        R.extra_json = "\"defects\":[" + ids + "]";
+        return true;
+    }
     build_rich();
     R.extra_json = "\"tier\":" + jstr(thorough ? "thorough" : "quick");
     if (space == "ladder" || space == "trunc") {
